@@ -904,6 +904,9 @@ func (m *Machine) isNativeType(t types.Type) (string, bool) {
 // implements reports whether dynamic type t implements interface it.
 func (m *Machine) implements(t types.Type, it *types.Interface) bool {
 	if name, ok := m.isNativeType(t); ok {
+		if name == "rtype" {
+			return it.NumMethods() > 0 && (it.Method(0).Pkg() == nil || it.Method(0).Pkg().Path() == "reflect" || it.Method(0).Pkg().Path() == "internal/reflectlite" || m.allIn(it, "rtype"))
+		}
 		for i := 0; i < it.NumMethods(); i++ {
 			if _, ok := m.natives["("+name+")."+it.Method(i).Name()]; !ok {
 				return false
@@ -987,4 +990,13 @@ func (m *Machine) initSkipped(pkg *ssa.Package) {
 		var cell Value = Struct{pkg.Pkg.Path() + "." + g.Name()}
 		*m.globals[g] = Iface{T: types.NewPointer(est.Type()), V: &cell}
 	}
+}
+
+func (m *Machine) allIn(it *types.Interface, name string) bool {
+	for i := 0; i < it.NumMethods(); i++ {
+		if _, ok := m.natives["("+name+")."+it.Method(i).Name()]; !ok {
+			return false
+		}
+	}
+	return true
 }
